@@ -3,7 +3,9 @@ package main
 
 import (
 	"fmt"
+	"github.com/pinealctx/neptune/zverif/vtime"
 	"strings"
+	"time"
 
 	"github.com/pinealctx/neptune/queue/priq"
 	"github.com/pinealctx/neptune/queue/syncq"
@@ -216,6 +218,97 @@ func condScenario(mk func() *qa, k int, prod [][]int, closer, anyway, prior bool
 	}
 }
 
+// ---- retry-until-accepted adds on a bounded lane ----
+//
+// The *Anyway adds sleep and retry while the lane is full.  time.Sleep in the queue packages is
+// redirected to a scheduler-visible wait: the sleeper is parked until some other thread has taken a
+// step (a retry without any progress elsewhere would find the lane exactly as full), so the retry
+// loop is explored without unrolling it.
+type anyQ struct {
+	name           string
+	add, addAnyway func(v int) bool
+	pop            func() (int, bool)
+}
+
+var anyMakers = []func() *anyQ{
+	func() *anyQ {
+		x := q.NewQ(q.WithSize(1))
+		return &anyQ{"pipe/q(cap=1)", func(v int) bool { return x.AddReq(v) == nil }, func(v int) bool { return x.AddReqAnyway(v, time.Millisecond) == nil }, func() (int, bool) { return iv(x.Pop()) }}
+	},
+	func() *anyQ {
+		x := async.NewQ(1)
+		return &anyQ{"pipe/async(cap=1)", func(v int) bool { return x.Add(v) == nil }, func(v int) bool { return x.AddAnyway(v, time.Millisecond) == nil }, func() (int, bool) { return iv(x.Pop()) }}
+	},
+	func() *anyQ {
+		x := mux.NewQ(1)
+		return &anyQ{"pipe/mux(cap=1)", func(v int) bool { return x.AddReq(v) == nil }, func(v int) bool { return x.AddReqAnyway(v, time.Millisecond) == nil }, func() (int, bool) { return iv(x.Pop()) }}
+	},
+	func() *anyQ {
+		x := mq.NewMQ(mq.WithQCtrlSize(1), mq.WithQReqSize(1))
+		return &anyQ{"pipe/mq-req(cap=1)", func(v int) bool { return x.AddReq(v) == nil }, func(v int) bool { return x.AddReqAnyway(v, time.Millisecond) == nil }, func() (int, bool) { return iv(x.Pop()) }}
+	},
+	func() *anyQ {
+		x := mq.NewMQ(mq.WithQCtrlSize(1), mq.WithQReqSize(1))
+		return &anyQ{"pipe/mq-ctrl(cap=1)", func(v int) bool { return x.AddCtrl(v) == nil }, func(v int) bool { return x.AddCtrlAnyway(v, time.Millisecond) == nil }, func() (int, bool) { return iv(x.Pop()) }}
+	},
+}
+
+func anywayScenario(mk func() *anyQ, consumers int, prog []int) *mc.Scenario {
+	probe := mk()
+	return &mc.Scenario{Name: fmt.Sprintf("%s/retrying-add/consumers=%d/producer=%v", probe.name, consumers, prog), PB: [2]int{2, 3}, NoStateCache: true,
+		Main: func(w *mc.World) {
+			vtime.SleepFn = func(time.Duration) {
+				s := w.S
+				n0 := s.Steps
+				vsync.BlockOn(func() bool { return s.Steps > n0+1 })
+			}
+			x := mk()
+			got := make([]popRes, consumers)
+			for i := 0; i < consumers; i++ {
+				i := i
+				w.Go(fmt.Sprintf("consumer%d", i), func() {
+					v, ok := x.pop()
+					w.Touch()
+					got[i] = popRes{v, ok}
+				})
+			}
+			accepted := 0
+			w.Go("producer", func() {
+				for _, it := range prog {
+					ok := false
+					if it < 0 {
+						ok = x.addAnyway(-it) // retried until accepted
+						if !ok {
+							w.Failf("the retrying add of %d gave up on an open queue", -it)
+						}
+					} else {
+						ok = x.add(it)
+					}
+					if ok {
+						w.Touch()
+						accepted++
+					}
+				}
+			})
+			w.Join()
+			w.Touch()
+			n := 0
+			for _, g := range got {
+				if g.ok {
+					n++
+				}
+			}
+			want := accepted
+			if want > consumers {
+				want = consumers
+			}
+			if n != want {
+				w.Failf("%d items accepted, %d consumers, but %d items handed out: %s", accepted, consumers, n, fmtRes(got))
+			}
+			w.Obs("res=%s accepted=%d", fmtRes(got), accepted)
+		}}
+}
+
 // ---- priority queue ----
 
 type ent struct{ p, id int }
@@ -355,6 +448,9 @@ func scenarios(r *ev.Run) []*mc.Scenario {
 			scs = append(scs, condScenario(mk, 2, [][]int{{1}}, true, true, false, false))
 			scs = append(scs, condScenario(mk, 2, [][]int{{1, 2}}, false, true, false, false))
 		}
+	}
+	for _, mk := range anyMakers {
+		scs = append(scs, anywayScenario(mk, 2, []int{1, -2}), anywayScenario(mk, 2, []int{-1, -2}), anywayScenario(mk, 3, []int{1, -2, -3}))
 	}
 	scs = append(scs,
 		priqScenario(4, [][]ent{{{1, 1}, {1, 2}}}, 1),
